@@ -233,7 +233,8 @@ pub fn run(tier: &str) -> i32 {
     } else {
         vec![
             (Network::Regtest, 1, 5, vec![1, 2], vec![BODY_CB, BODY_MULTI], vec![0, 1, 2], 1),
-            (Network::Regtest, 2, 6, vec![1, 2], vec![BODY_CB, BODY_MULTI], vec![0, 1, 2], 1),
+            (Network::Regtest, 2, 5, vec![1, 2], vec![BODY_CB, BODY_MULTI], vec![0, 1, 2], 1),
+            (Network::Regtest, 2, 6, vec![1, 2], vec![BODY_CB], vec![0, 1], 1),
             (Network::Regtest, 3, 6, vec![1, 2, 3], vec![BODY_CB], vec![0, 1], 1),
             (Network::Mainnet, 2, 5, vec![1, 2], vec![BODY_CB, BODY_MULTI], vec![0, 1, 2], 1),
             (Network::Testnet, 1, 5, vec![1], vec![BODY_CB, BODY_MULTI], vec![0, 1, 2], 1),
